@@ -245,6 +245,7 @@ char* cpputest_strndup_location(const char * str, size_t n, const char* file, si
 
 void* cpputest_calloc_location(size_t num, size_t size, const char* file, size_t line)
 {
+    if (size != 0 && num > ((size_t) -1) / size) return NULLPTR; /* num * size does not fit in size_t */
     void* mem = cpputest_malloc_location(num * size, file, line);
     if (mem)
         PlatformSpecificMemset(mem, 0, num*size);
